@@ -167,6 +167,21 @@ struct TreeGen
   }
 };
 
+// every byte prefix of a well-formed document: truncation inside a comment delimiter, an entity, a quoted value, an end tag
+static void truncations(const std::string& doc, const std::string& cs)
+{
+  for(size_t k = 1; k < doc.size(); ++k)
+  {
+    std::string text = doc.substr(0, k);
+    vf::Exact e(text, true);
+    Xml::Parser p; Xml::Element el;
+    bool ok = p.parse(String::fromCString(e.p, text.size()), el);
+    vf::hit("prefix_inputs");
+    std::string why;
+    if(!ok && !checkErrorPos(text, p.getErrorLine(), p.getErrorColumn(), why)) vf::violation("C16:xml:error-position", cs + vf::fmt(" truncated to %d bytes", (int)k), why);
+  }
+}
+
 int main(int argc, char** argv)
 {
   vf::std_init(argc, argv);
@@ -257,6 +272,7 @@ int main(int argc, char** argv)
           vf::violation("C16:xml:roundtrip", cs, vf::fmt("serialised text is rejected: line %d column %d: %s", p.getErrorLine(), p.getErrorColumn(), (const char*)p.getErrorString()));
         else if(!same(back, t, why, "/" + t.name)) vf::violation("C16:xml:roundtrip", cs, "re-parsed tree differs: " + why);
         else if(i % 400 == 3) vf::sample(cs, 3);
+        truncations(sstr(text), cs);
         continue;
       }
       // comments / processing instructions at every boundary
@@ -280,6 +296,7 @@ int main(int argc, char** argv)
           vf::violation("C16:xml:comments", cs, vf::fmt("document with a comment is rejected: line %d column %d: %s", p.getErrorLine(), p.getErrorColumn(), (const char*)p.getErrorString()));
         else if(!same(back, t, why, "/" + t.name)) vf::violation("C16:xml:comments", cs, "tree differs from the one parsed without comments: " + why);
         else if(i % 60 == 5 && at == 2) vf::sample(cs, 3);
+        if(k == 1) truncations(doc, cs);
       }
     }
   }
